@@ -340,6 +340,18 @@ class Classifier(object):
                     return v
                 return mk("collect", it)
             return mk("extend", leaf.init, it)
+        # de-duplicating append:  if !s.contains(e) { s.push(e) }  ->  the distinct values of e over the source,
+        # in order of first occurrence
+        if len(cases) == 1 and cases[0][1].op == "push" and cases[0][1].a[0] is s and self.free_of_state(cases[0][1].a[1]):
+            g, u = cases[0]
+            e = u.a[1]
+            lits = list(g.a) if g.op == "and" else [g]
+            member = [c for c in lits if c.op == "not" and c.a[0].op == "contains" and c.a[0].a[0] is s and c.a[0].a[1] is e]
+            rest = [c for c in lits if c not in member]
+            if len(member) == 1 and all(self.free_of_state(c) for c in rest):
+                self.kinds.append(("dedup-append", [(tm.and_(*rest) if rest else tm.TRUE, e)]))
+                it = mk("map", filtered(self.src, self.elem, tm.and_(*rest) if rest else tm.TRUE), tm.lam([self.elem], e))
+                return mk("dedup", leaf.init, it)
         # a flag that is only ever raised:  s' = s || d(elem)   /   lowered:  s' = s && d(elem)
         if n.op in ("or", "and") and any(x is s for x in n.a):
             rest = [x for x in n.a if x is not s]
